@@ -1,8 +1,8 @@
 #!/usr/bin/env python3
 """tools/import_seed.py <Cxx/A> <caught_by text> [note]  - copy a confirmed seeded change into /verif/seeded/"""
 import json, os, shutil, sys
-src = '/tmp/wt/out/' + sys.argv[1]
-name = sys.argv[1].replace('/', '-')
+src = os.environ.get('SEED_SRC', '/tmp/wt/out') + '/' + sys.argv[1]
+name = os.environ.get('SEED_NAME') or sys.argv[1].replace('/', '-')
 dst = '/verif/seeded/' + name
 os.makedirs(dst, exist_ok=True)
 shutil.copy(src + '/patch.diff', dst + '/patch.diff')
